@@ -372,23 +372,20 @@ def sample_jobs(rnd, n):
     return jobs
 
 
-BIG = {"2^31": 2 ** 31, "2^62-1": 2 ** 62 - 1, "2^62": 2 ** 62, "2^63-1": 2 ** 63 - 1, "2^63": 2 ** 63,
+BIG = {"2^31": 2 ** 31, "2^32-1": 2 ** 32 - 1, "2^32": 2 ** 32, "2^64": 2 ** 64, "2^64+5": 2 ** 64 + 5, "2^62-1": 2 ** 62 - 1, "2^62": 2 ** 62, "2^63-1": 2 ** 63 - 1, "2^63": 2 ** 63,
        "-2^63": -2 ** 63, "-2^63-1": -2 ** 63 - 1, "2^64-1": 2 ** 64 - 1}
 NOARG = ["tell", "eof", "capacity", "data", "pull_uint8", "pull_uint16", "pull_uint32", "pull_uint64", "pull_uint_var"]
 PUSHFIX = ["push_uint8", "push_uint16", "push_uint32", "push_uint64"]
 
 
 def int_args(cap):
-    return sorted({-1, 0, 1, 2, cap - 1, cap, cap + 1, 63, 64, 16383, 16384}) + list(BIG.values())
+    return sorted({-1, 0, 1, 2, cap - 1, cap, cap + 1, 63, 64, 255, 256, 16383, 16384, 65535, 65536}) + list(BIG.values())
 
 
 def buffer_alphabet(cap):
     calls = [{"m": m} for m in NOARG]
-    for m in PUSHFIX:
-        calls += [{"m": m, "args": [v]} for v in (0, 255, -1, 2 ** 64 + 5)]
-    for m in ("seek", "pull_bytes"):
+    for m in PUSHFIX + ["seek", "pull_bytes", "push_uint_var"]:
         calls += [{"m": m, "args": [v]} for v in int_args(cap)]
-    calls += [{"m": "push_uint_var", "args": [v]} for v in int_args(cap) if v >= -2 ** 63]
     calls += [{"m": "data_slice", "args": [a, b]} for a in int_args(cap) for b in int_args(cap)]
     calls += [{"m": "push_bytes", "args": [n]} for n in sorted({0, 1, 2, cap - 1, cap, cap + 1, 9}) if n >= 0]
     return calls
@@ -511,6 +508,9 @@ def judge_crypto(check, lines, jobmap, name):
             check.drift("memsafe:%s:%s:%s:%s" % (ln["ep"], clause, ln["src"], ln["out"]), detail)
         elif clause.startswith("bound:"):
             check.violation("memsafe:%s:%s" % (ln["ep"], clause[6:]), detail)
+        elif clause in ("sanitizer", "crash") and ln.get("after_call"):
+            # the process died in the library between two calls of the crypto helpers (e.g. inside _buffer.c)
+            check.violation("memsafe:outside-crypto-call:%s:signal=%s" % (ln["san"] or "no-report", ln["sig"]), detail)
         elif clause == "sanitizer":
             check.violation("memsafe:%s:sanitizer-inside-modelled-bounds:%s" % (ln["ep"], ln["san"]), detail)
         elif clause == "crash":
@@ -605,22 +605,24 @@ def run(check):
         sess = number(session_jobs(rnd, quick))
         host = number(hostile_jobs(rnd, quick))
         bufs = number(buffer_jobs(rnd, quick))
-        groups = [("sess%d" % i, [j]) for i, j in enumerate(sess)]
-        groups += [("host%d" % i, c) for i, c in enumerate(chunks(host, 10))]
-        groups += [("buf%d" % i, c) for i, c in enumerate(chunks(bufs, 6))]
+        # a death costs one fork inside the worker, so jobs can share processes (and the import of the library)
+        sess.sort(key=lambda j: -j["nbytes"])
+        groups = [("sess%d" % i, sess[i::6]) for i in range(min(6, len(sess)))]
+        groups += [("host%d" % i, c) for i, c in enumerate(chunks(host, 5))]
+        groups += [("buf%d" % i, c) for i, c in enumerate(chunks(bufs, 3))]
         jobsof = dict(groups)
         futs = {tag: pool.submit(rig.run_chunk, jobs, tag) for tag, jobs in groups}
         model_results(check, f_sweep.result(), f_small.result(), f_buf.result(), m)
         direct = number(near_jobs(m["near"], rnd) + sample_jobs(rnd, 300 if quick else 3000))
-        dgroups = [("direct%d" % i, c) for i, c in enumerate(chunks(direct, 14))]
+        dgroups = [("direct%d" % i, c) for i, c in enumerate(chunks(direct, 10))]
         jobsof.update(dgroups)
         futs.update({tag: pool.submit(rig.run_chunk, jobs, tag) for tag, jobs in dgroups})
         recs = {tag: f.result() for tag, f in futs.items()}
 
     jobmap = {}
     for tag, jobs in jobsof.items():
-        for j in jobs:
-            jobmap[(tag, j["i"] - jobs[0]["i"])] = j
+        for k, j in enumerate(jobs):
+            jobmap[(tag, k)] = j
     clines, blines = [], []
     # library-made calls first: the recorded instance of a violation then shows how the library reaches it
     for tag in sorted(recs, key=lambda t: (t.startswith("direct"), t.startswith("sess"), t)):
